@@ -27,7 +27,7 @@ impl CPU {
         let instr = match opcode {
             0xCB => {
                 // Reading the byte following the prefix
-                let oc = self.bus.read_byte(address+1);
+                let oc = self.bus.read_byte(address.wrapping_add(1));
                 // Reading corresponding disassembled string from the table
                 let dasm_str = String::from(DASM_CB[oc as usize]);
                 format!("CB{:02X}          {}", oc, dasm_str)
@@ -166,43 +166,43 @@ impl CPU {
             // LD r,n
             0x06 => {
                 // LD B,n
-                let data = self.bus.read_byte(address + 1);
+                let data = self.bus.read_byte(address.wrapping_add(1));
                 format!("06 {:02X}         LD B,${:02X}", data, data)
             }
             0x0E => {
                 // LD C,n
-                let data = self.bus.read_byte(address + 1);
+                let data = self.bus.read_byte(address.wrapping_add(1));
                 format!("0E {:02X}         LD C,${:02X}", data, data)
             }
             0x16 => {
                 // LD D,n
-                let data = self.bus.read_byte(address + 1);
+                let data = self.bus.read_byte(address.wrapping_add(1));
                 format!("16 {:02X}         LD D,${:02X}", data, data)
             }
             0x1E => {
                 // LD E,n
-                let data = self.bus.read_byte(address + 1);
+                let data = self.bus.read_byte(address.wrapping_add(1));
                 format!("1E {:02X}         LD E,${:02X}", data, data)
             }
             0x26 => {
                 // LD H,n
-                let data = self.bus.read_byte(address + 1);
+                let data = self.bus.read_byte(address.wrapping_add(1));
                 format!("26 {:02X}         LD H,${:02X}", data, data)
             }
             0x2E => {
                 // LD L,n
-                let data = self.bus.read_byte(address + 1);
+                let data = self.bus.read_byte(address.wrapping_add(1));
                 format!("2E {:02X}         LD L,${:02X}", data, data)
             }
             0x36 => {
                 // LD (HL),n
-                let data = self.bus.read_byte(address + 1);
+                let data = self.bus.read_byte(address.wrapping_add(1));
                 let addr = self.reg.get_hl();
                 format!("36 {:02X}         LD (${:04X}),{:02X}", data, addr, data)
             }
             0x3E => {
                 // LD A,n
-                let data = self.bus.read_byte(address + 1);
+                let data = self.bus.read_byte(address.wrapping_add(1));
                 format!("3E {:02X}         LD A,${:02X}", data, data)
             }
 
@@ -220,9 +220,9 @@ impl CPU {
 
             // LD A,(nn)
             0x3A => {
-                let addr_low = self.bus.read_byte(address + 1);
-                let addr_high = self.bus.read_byte(address + 2);
-                let addr = self.bus.read_word(address + 1);
+                let addr_low = self.bus.read_byte(address.wrapping_add(1));
+                let addr_high = self.bus.read_byte(address.wrapping_add(2));
+                let addr = self.bus.read_word(address.wrapping_add(1));
                 format!(
                     "3A {:02X} {:02X}      LD A,(${:04X})",
                     addr_low, addr_high, addr
@@ -243,7 +243,7 @@ impl CPU {
 
             // LD (nn),A
             0x32 => {
-                let addr = self.bus.read_word(address + 1);
+                let addr = self.bus.read_word(address.wrapping_add(1));
                 format!("32            LD (${:04X}),A", addr)
             }
 
@@ -251,9 +251,9 @@ impl CPU {
             // LD dd,nn
             0x01 => {
                 // LD BC,nn
-                let addr_low = self.bus.read_byte(address + 1);
-                let addr_high = self.bus.read_byte(address + 2);
-                let d16 = self.bus.read_word(address + 1);
+                let addr_low = self.bus.read_byte(address.wrapping_add(1));
+                let addr_high = self.bus.read_byte(address.wrapping_add(2));
+                let d16 = self.bus.read_word(address.wrapping_add(1));
                 format!(
                     "01 {:02X} {:02X}      LD BC,${:04X}",
                     addr_low, addr_high, d16
@@ -261,9 +261,9 @@ impl CPU {
             }
             0x11 => {
                 // LD DE,nn
-                let addr_low = self.bus.read_byte(address + 1);
-                let addr_high = self.bus.read_byte(address + 2);
-                let d16 = self.bus.read_word(address + 1);
+                let addr_low = self.bus.read_byte(address.wrapping_add(1));
+                let addr_high = self.bus.read_byte(address.wrapping_add(2));
+                let d16 = self.bus.read_word(address.wrapping_add(1));
                 format!(
                     "11 {:02X} {:02X}      LD DE,${:04X}",
                     addr_low, addr_high, d16
@@ -271,9 +271,9 @@ impl CPU {
             }
             0x21 => {
                 // LD HL,nn
-                let addr_low = self.bus.read_byte(address + 1);
-                let addr_high = self.bus.read_byte(address + 2);
-                let d16 = self.bus.read_word(address + 1);
+                let addr_low = self.bus.read_byte(address.wrapping_add(1));
+                let addr_high = self.bus.read_byte(address.wrapping_add(2));
+                let d16 = self.bus.read_word(address.wrapping_add(1));
                 format!(
                     "21 {:02X} {:02X}      LD HL,${:04X}",
                     addr_low, addr_high, d16
@@ -281,9 +281,9 @@ impl CPU {
             }
             0x31 => {
                 // LD SP,nn
-                let addr_low = self.bus.read_byte(address + 1);
-                let addr_high = self.bus.read_byte(address + 2);
-                let d16 = self.bus.read_word(address + 1);
+                let addr_low = self.bus.read_byte(address.wrapping_add(1));
+                let addr_high = self.bus.read_byte(address.wrapping_add(2));
+                let d16 = self.bus.read_word(address.wrapping_add(1));
                 format!(
                     "31 {:02X} {:02X}      LD SP,${:04X}",
                     addr_low, addr_high, d16
@@ -292,9 +292,9 @@ impl CPU {
 
             // LD HL,(nn)
             0x2A => {
-                let addr_low = self.bus.read_byte(address + 1);
-                let addr_high = self.bus.read_byte(address + 2);
-                let addr = self.bus.read_word(address + 1);
+                let addr_low = self.bus.read_byte(address.wrapping_add(1));
+                let addr_high = self.bus.read_byte(address.wrapping_add(2));
+                let addr = self.bus.read_word(address.wrapping_add(1));
                 format!(
                     "2A {:02X} {:02X}      LD HL,(${:04X})",
                     addr_low, addr_high, addr
@@ -303,9 +303,9 @@ impl CPU {
 
             // LD (nn),HL
             0x22 => {
-                let addr_low = self.bus.read_byte(address + 1);
-                let addr_high = self.bus.read_byte(address + 2);
-                let addr = self.bus.read_word(address + 1);
+                let addr_low = self.bus.read_byte(address.wrapping_add(1));
+                let addr_high = self.bus.read_byte(address.wrapping_add(2));
+                let addr = self.bus.read_word(address.wrapping_add(1));
                 format!(
                     "22 {:02X} {:02X}      LD (${:04X}),HL",
                     addr_low, addr_high, addr
@@ -357,7 +357,7 @@ impl CPU {
 
             // ADD A,n
             0xC6 => {
-                let n = self.bus.read_byte(address + 1);
+                let n = self.bus.read_byte(address.wrapping_add(1));
                 format!("C6 {:02X}         ADD A,${:02X}", n, n)
             }
 
@@ -378,7 +378,7 @@ impl CPU {
             // ADC a,n
             0xCE => {
                 // ADC A,(HL)
-                let n = self.bus.read_byte(address + 1);
+                let n = self.bus.read_byte(address.wrapping_add(1));
                 format!("CE {:02X}         ADC A,${:02X}", n, n)
             }
 
@@ -398,7 +398,7 @@ impl CPU {
 
             0xD6 => {
                 // SUB A,n
-                let n = self.bus.read_byte(address + 1);
+                let n = self.bus.read_byte(address.wrapping_add(1));
                 format!("D6 {:02X}         SUB A,${:02X}", n, n)
             }
 
@@ -418,7 +418,7 @@ impl CPU {
 
             0xDE => {
                 // SBC A,n
-                let n = self.bus.read_byte(address + 1);
+                let n = self.bus.read_byte(address.wrapping_add(1));
                 format!("DE {:02X}         SBC A,${:02X}", n, n)
             }
 
@@ -438,7 +438,7 @@ impl CPU {
 
             0xE6 => {
                 // AND n
-                let n = self.bus.read_byte(address + 1);
+                let n = self.bus.read_byte(address.wrapping_add(1));
                 format!("E6 {:02X}         AND ${:02X}", n, n)
             }
 
@@ -458,7 +458,7 @@ impl CPU {
 
             0xF6 => {
                 // OR n
-                let n = self.bus.read_byte(address + 1);
+                let n = self.bus.read_byte(address.wrapping_add(1));
                 format!("F6 {:02X}         OR ${:02X}", n, n)
             }
 
@@ -478,7 +478,7 @@ impl CPU {
 
             0xEE => {
                 // XOR n
-                let n = self.bus.read_byte(address + 1);
+                let n = self.bus.read_byte(address.wrapping_add(1));
                 format!("EE {:02X}         XOR ${:02X}", n, n)
             }
 
@@ -498,7 +498,7 @@ impl CPU {
 
             0xFE => {
                 // CP n
-                let n = self.bus.read_byte(address + 1);
+                let n = self.bus.read_byte(address.wrapping_add(1));
                 format!("FE {:02X}         CP ${:02X}", n, n)
             }
 
@@ -590,9 +590,9 @@ impl CPU {
             // Jump group
             // JP nn
             0xC3 => {
-                let addr_low = self.bus.read_byte(address + 1);
-                let addr_high = self.bus.read_byte(address + 2);
-                let addr = self.bus.read_word(address + 1);
+                let addr_low = self.bus.read_byte(address.wrapping_add(1));
+                let addr_high = self.bus.read_byte(address.wrapping_add(2));
+                let addr = self.bus.read_word(address.wrapping_add(1));
                 format!(
                     "C3 {:02X} {:02X}      JP ${:04X}",
                     addr_low, addr_high, addr
@@ -601,9 +601,9 @@ impl CPU {
 
             // JP C,nn
             0xDA => {
-                let addr_low = self.bus.read_byte(address + 1);
-                let addr_high = self.bus.read_byte(address + 2);
-                let addr = self.bus.read_word(address + 1);
+                let addr_low = self.bus.read_byte(address.wrapping_add(1));
+                let addr_high = self.bus.read_byte(address.wrapping_add(2));
+                let addr = self.bus.read_word(address.wrapping_add(1));
                 format!(
                     "DA {:02X} {:02X}      JP C,${:04X}",
                     addr_low, addr_high, addr
@@ -612,9 +612,9 @@ impl CPU {
 
             // JP NC,nn
             0xD2 => {
-                let addr_low = self.bus.read_byte(address + 1);
-                let addr_high = self.bus.read_byte(address + 2);
-                let addr = self.bus.read_word(address + 1);
+                let addr_low = self.bus.read_byte(address.wrapping_add(1));
+                let addr_high = self.bus.read_byte(address.wrapping_add(2));
+                let addr = self.bus.read_word(address.wrapping_add(1));
                 format!(
                     "D2 {:02X} {:02X}      JP NC,${:04X}",
                     addr_low, addr_high, addr
@@ -623,9 +623,9 @@ impl CPU {
 
             // JP Z,nn
             0xCA => {
-                let addr_low = self.bus.read_byte(address + 1);
-                let addr_high = self.bus.read_byte(address + 2);
-                let addr = self.bus.read_word(address + 1);
+                let addr_low = self.bus.read_byte(address.wrapping_add(1));
+                let addr_high = self.bus.read_byte(address.wrapping_add(2));
+                let addr = self.bus.read_word(address.wrapping_add(1));
                 format!(
                     "CA {:02X} {:02X}      JP Z,${:04X}",
                     addr_low, addr_high, addr
@@ -634,9 +634,9 @@ impl CPU {
 
             // JP NZ,nn
             0xC2 => {
-                let addr_low = self.bus.read_byte(address + 1);
-                let addr_high = self.bus.read_byte(address + 2);
-                let addr = self.bus.read_word(address + 1);
+                let addr_low = self.bus.read_byte(address.wrapping_add(1));
+                let addr_high = self.bus.read_byte(address.wrapping_add(2));
+                let addr = self.bus.read_word(address.wrapping_add(1));
                 format!(
                     "C2 {:02X} {:02X}      JP NZ,${:04X}",
                     addr_low, addr_high, addr
@@ -645,9 +645,9 @@ impl CPU {
 
             // JP M,nn
             0xFA => {
-                let addr_low = self.bus.read_byte(address + 1);
-                let addr_high = self.bus.read_byte(address + 2);
-                let addr = self.bus.read_word(address + 1);
+                let addr_low = self.bus.read_byte(address.wrapping_add(1));
+                let addr_high = self.bus.read_byte(address.wrapping_add(2));
+                let addr = self.bus.read_word(address.wrapping_add(1));
                 format!(
                     "FA {:02X} {:02X}      JP M,${:04X}",
                     addr_low, addr_high, addr
@@ -656,9 +656,9 @@ impl CPU {
 
             // JP P,nn
             0xF2 => {
-                let addr_low = self.bus.read_byte(address + 1);
-                let addr_high = self.bus.read_byte(address + 2);
-                let addr = self.bus.read_word(address + 1);
+                let addr_low = self.bus.read_byte(address.wrapping_add(1));
+                let addr_high = self.bus.read_byte(address.wrapping_add(2));
+                let addr = self.bus.read_word(address.wrapping_add(1));
                 format!(
                     "F2 {:02X} {:02X}      JP P,${:04X}",
                     addr_low, addr_high, addr
@@ -667,9 +667,9 @@ impl CPU {
 
             // JP PE,nn
             0xEA => {
-                let addr_low = self.bus.read_byte(address + 1);
-                let addr_high = self.bus.read_byte(address + 2);
-                let addr = self.bus.read_word(address + 1);
+                let addr_low = self.bus.read_byte(address.wrapping_add(1));
+                let addr_high = self.bus.read_byte(address.wrapping_add(2));
+                let addr = self.bus.read_word(address.wrapping_add(1));
                 format!(
                     "EA {:02X} {:02X}      JP PE,${:04X}",
                     addr_low, addr_high, addr
@@ -678,9 +678,9 @@ impl CPU {
 
             // JP PO,nn
             0xE2 => {
-                let addr_low = self.bus.read_byte(address + 1);
-                let addr_high = self.bus.read_byte(address + 2);
-                let addr = self.bus.read_word(address + 1);
+                let addr_low = self.bus.read_byte(address.wrapping_add(1));
+                let addr_high = self.bus.read_byte(address.wrapping_add(2));
+                let addr = self.bus.read_word(address.wrapping_add(1));
                 format!(
                     "E2 {:02X} {:02X}      JP PO,${:04X}",
                     addr_low, addr_high, addr
@@ -689,50 +689,50 @@ impl CPU {
 
             // JR e
             0x18 => {
-                let displacement = self.bus.read_byte(address + 1);
+                let displacement = self.bus.read_byte(address.wrapping_add(1));
                 let addr = match bit::get(displacement, 7) {
-                    true => address + 2 - (signed_to_abs(displacement) as u16),
-                    false => address + 2 + (displacement as u16),
+                    true => address.wrapping_add(2).wrapping_sub(signed_to_abs(displacement) as u16),
+                    false => address.wrapping_add(2).wrapping_add(displacement as u16),
                 };
                 format!("18 {:02X}         JR ${:04X}", displacement, addr)
             }
 
             // JR C,e
             0x38 => {
-                let displacement = self.bus.read_byte(address + 1);
+                let displacement = self.bus.read_byte(address.wrapping_add(1));
                 let addr = match bit::get(displacement, 7) {
-                    true => address + 2 - (signed_to_abs(displacement) as u16),
-                    false => address + 2 + (displacement as u16),
+                    true => address.wrapping_add(2).wrapping_sub(signed_to_abs(displacement) as u16),
+                    false => address.wrapping_add(2).wrapping_add(displacement as u16),
                 };
                 format!("38 {:02X}         JR C,${:04X}", displacement, addr)
             }
 
             // JR NC,e
             0x30 => {
-                let displacement = self.bus.read_byte(address + 1);
+                let displacement = self.bus.read_byte(address.wrapping_add(1));
                 let addr = match bit::get(displacement, 7) {
-                    true => address + 2 - (signed_to_abs(displacement) as u16),
-                    false => address + 2 + (displacement as u16),
+                    true => address.wrapping_add(2).wrapping_sub(signed_to_abs(displacement) as u16),
+                    false => address.wrapping_add(2).wrapping_add(displacement as u16),
                 };
                 format!("30 {:02X}         JR NC,${:04X}", displacement, addr)
             }
 
             // JR Z,e
             0x28 => {
-                let displacement = self.bus.read_byte(address + 1);
+                let displacement = self.bus.read_byte(address.wrapping_add(1));
                 let addr = match bit::get(displacement, 7) {
-                    true => address + 2 - (signed_to_abs(displacement) as u16),
-                    false => address + 2 + (displacement as u16),
+                    true => address.wrapping_add(2).wrapping_sub(signed_to_abs(displacement) as u16),
+                    false => address.wrapping_add(2).wrapping_add(displacement as u16),
                 };
                 format!("28 {:02X}         JR Z,${:04X}", displacement, addr)
             }
 
             // JR NZ,e
             0x20 => {
-                let displacement = self.bus.read_byte(address + 1);
+                let displacement = self.bus.read_byte(address.wrapping_add(1));
                 let addr = match bit::get(displacement, 7) {
-                    true => address + 2 - (signed_to_abs(displacement) as u16),
-                    false => address + 2 + (displacement as u16),
+                    true => address.wrapping_add(2).wrapping_sub(signed_to_abs(displacement) as u16),
+                    false => address.wrapping_add(2).wrapping_add(displacement as u16),
                 };
                 format!("20 {:02X}         JR NZ,${:04X}", displacement, addr)
             }
@@ -748,10 +748,10 @@ impl CPU {
 
             // DJNZ, e
             0x10 => {
-                let displacement = self.bus.read_byte(address + 1);
+                let displacement = self.bus.read_byte(address.wrapping_add(1));
                 let addr = match bit::get(displacement, 7) {
-                    true => address + 2 - (signed_to_abs(displacement) as u16),
-                    false => address + 2 + (displacement as u16),
+                    true => address.wrapping_add(2).wrapping_sub(signed_to_abs(displacement) as u16),
+                    false => address.wrapping_add(2).wrapping_add(displacement as u16),
                 };
                 format!("10 {:02X}         DJNZ ${:04X}", displacement, addr)
             }
@@ -759,9 +759,9 @@ impl CPU {
             // Call and Return Group
             // CALL nn
             0xCD => {
-                let addr_low = self.bus.read_byte(address + 1);
-                let addr_high = self.bus.read_byte(address + 2);
-                let addr = self.bus.read_word(address + 1);
+                let addr_low = self.bus.read_byte(address.wrapping_add(1));
+                let addr_high = self.bus.read_byte(address.wrapping_add(2));
+                let addr = self.bus.read_word(address.wrapping_add(1));
                 format!(
                     "CD {:02X} {:02X}      CALL ${:04X}",
                     addr_low, addr_high, addr
@@ -770,9 +770,9 @@ impl CPU {
 
             // CALL C,nn
             0xDC => {
-                let addr_low = self.bus.read_byte(address + 1);
-                let addr_high = self.bus.read_byte(address + 2);
-                let addr = self.bus.read_word(address + 1);
+                let addr_low = self.bus.read_byte(address.wrapping_add(1));
+                let addr_high = self.bus.read_byte(address.wrapping_add(2));
+                let addr = self.bus.read_word(address.wrapping_add(1));
                 format!(
                     "DC {:02X} {:02X}      CALL C,${:04X}",
                     addr_low, addr_high, addr
@@ -781,9 +781,9 @@ impl CPU {
 
             // CALL NC,nn
             0xD4 => {
-                let addr_low = self.bus.read_byte(address + 1);
-                let addr_high = self.bus.read_byte(address + 2);
-                let addr = self.bus.read_word(address + 1);
+                let addr_low = self.bus.read_byte(address.wrapping_add(1));
+                let addr_high = self.bus.read_byte(address.wrapping_add(2));
+                let addr = self.bus.read_word(address.wrapping_add(1));
                 format!(
                     "D4 {:02X} {:02X}      CALL NC,${:04X}",
                     addr_low, addr_high, addr
@@ -792,9 +792,9 @@ impl CPU {
 
             // CALL Z,nn
             0xCC => {
-                let addr_low = self.bus.read_byte(address + 1);
-                let addr_high = self.bus.read_byte(address + 2);
-                let addr = self.bus.read_word(address + 1);
+                let addr_low = self.bus.read_byte(address.wrapping_add(1));
+                let addr_high = self.bus.read_byte(address.wrapping_add(2));
+                let addr = self.bus.read_word(address.wrapping_add(1));
                 format!(
                     "CC {:02X} {:02X}      CALL Z,${:04X}",
                     addr_low, addr_high, addr
@@ -803,9 +803,9 @@ impl CPU {
 
             // CALL NZ,nn
             0xC4 => {
-                let addr_low = self.bus.read_byte(address + 1);
-                let addr_high = self.bus.read_byte(address + 2);
-                let addr = self.bus.read_word(address + 1);
+                let addr_low = self.bus.read_byte(address.wrapping_add(1));
+                let addr_high = self.bus.read_byte(address.wrapping_add(2));
+                let addr = self.bus.read_word(address.wrapping_add(1));
                 format!(
                     "C4 {:02X} {:02X}      CALL NZ,${:04X}",
                     addr_low, addr_high, addr
@@ -814,9 +814,9 @@ impl CPU {
 
             // CALL M,nn
             0xFC => {
-                let addr_low = self.bus.read_byte(address + 1);
-                let addr_high = self.bus.read_byte(address + 2);
-                let addr = self.bus.read_word(address + 1);
+                let addr_low = self.bus.read_byte(address.wrapping_add(1));
+                let addr_high = self.bus.read_byte(address.wrapping_add(2));
+                let addr = self.bus.read_word(address.wrapping_add(1));
                 format!(
                     "FC {:02X} {:02X}      CALL M,${:04X}",
                     addr_low, addr_high, addr
@@ -825,9 +825,9 @@ impl CPU {
 
             // CALL P,nn
             0xF4 => {
-                let addr_low = self.bus.read_byte(address + 1);
-                let addr_high = self.bus.read_byte(address + 2);
-                let addr = self.bus.read_word(address + 1);
+                let addr_low = self.bus.read_byte(address.wrapping_add(1));
+                let addr_high = self.bus.read_byte(address.wrapping_add(2));
+                let addr = self.bus.read_word(address.wrapping_add(1));
                 format!(
                     "F4 {:02X} {:02X}      CALL P,${:04X}",
                     addr_low, addr_high, addr
@@ -836,9 +836,9 @@ impl CPU {
 
             // CALL PE,nn
             0xEC => {
-                let addr_low = self.bus.read_byte(address + 1);
-                let addr_high = self.bus.read_byte(address + 2);
-                let addr = self.bus.read_word(address + 1);
+                let addr_low = self.bus.read_byte(address.wrapping_add(1));
+                let addr_high = self.bus.read_byte(address.wrapping_add(2));
+                let addr = self.bus.read_word(address.wrapping_add(1));
                 format!(
                     "EC {:02X} {:02X}      CALL PE,${:04X}",
                     addr_low, addr_high, addr
@@ -847,9 +847,9 @@ impl CPU {
 
             // CALL PO,nn
             0xE4 => {
-                let addr_low = self.bus.read_byte(address + 1);
-                let addr_high = self.bus.read_byte(address + 2);
-                let addr = self.bus.read_word(address + 1);
+                let addr_low = self.bus.read_byte(address.wrapping_add(1));
+                let addr_high = self.bus.read_byte(address.wrapping_add(2));
+                let addr = self.bus.read_word(address.wrapping_add(1));
                 format!(
                     "E4 {:02X} {:02X}      CALL PO,${:04X}",
                     addr_low, addr_high, addr
@@ -910,13 +910,13 @@ impl CPU {
             // Input and Output Group
             // IN A,(n)
             0xDB => {
-                let port = self.bus.read_byte(address + 1);
+                let port = self.bus.read_byte(address.wrapping_add(1));
                 format!("DB {:02X}         IN A,(${:02X})", port, port)
             }
 
             // OUT (n),A
             0xD3 => {
-                let port = self.bus.read_byte(address + 1);
+                let port = self.bus.read_byte(address.wrapping_add(1));
                 format!("D3 {:02X}         OUT A,(${:02X})", port, port)
             }
 
